@@ -1520,6 +1520,15 @@ impl State {
     /// Labelled renderings of the complete machine state, for the /verif harness.
     /// Read-only; sections are compared only against other dumps of the same build.
     pub fn verif_dump(&self) -> Vec<(&'static str, String)> {
+        self.verif_dump_opt(true)
+    }
+
+    /// Same without the (large, rarely changing) dictionary and code renderings.
+    pub fn verif_dump_light(&self) -> Vec<(&'static str, String)> {
+        self.verif_dump_opt(false)
+    }
+
+    fn verif_dump_opt(&self, full: bool) -> Vec<(&'static str, String)> {
         use std::fmt::Write;
         fn cells<'a>(it: impl Iterator<Item = &'a Cell>) -> String {
             let mut s = String::new();
@@ -1560,7 +1569,7 @@ impl State {
         d.push(("input", s));
         d.push(("dict_len", format!("{}", self.dict.len())));
         let mut s = String::new();
-        for e in &self.dict {
+        for e in self.dict.iter().filter(|_| full) {
             let kind = match &e.entry {
                 Entry::Constant(c) => {
                     let mut t = String::from("const=");
@@ -1576,7 +1585,7 @@ impl State {
         d.push(("dict", s));
         d.push(("code_len", format!("{}", self.code.len())));
         let mut s = String::new();
-        for (i, op) in self.code.iter().enumerate() {
+        for (i, op) in self.code.iter().enumerate().filter(|_| full) {
             let _ = write!(s, "{}:{:?} ", i, op);
         }
         d.push(("code", s));
